@@ -10,6 +10,7 @@ from typing import Any
 import asteval
 import numpy as np
 import pandas as pd
+from attrs import fields
 from tabulate import tabulate
 
 from glotaran.io import load_parameters
@@ -185,7 +186,8 @@ class Parameters:
         pd.DataFrame
             The created data frame.
         """
-        return pd.DataFrame(self.to_parameter_dict_list())
+        columns = [attribute.name for attribute in fields(Parameter) if attribute.init]
+        return pd.DataFrame(self.to_parameter_dict_list(), columns=columns)
 
     def to_parameter_dict_list(self) -> list[dict[str, Any]]:
         """Create list of parameter dictionaries from the group.
